@@ -212,6 +212,16 @@ static void runC12() {
       genWideRange(r, s);
     }
     fillOptions(r, s, true);
+    if (idx >= blockA && r.chance(0.12)) {
+      // few items relative to the pool, called from a pool worker: the chunk count is clamped by the
+      // range, and the caller's own ring index may lie beyond it
+      s.ctx = 1;
+      s.pool = static_cast<int>(r.range(2, 9));
+      i128 sz = r.range(1, s.pool);
+      if (s.start + sz <= typeMax(s.type)) s.end = s.start + sz;
+      if (s.chunking == 2) s.chunk = 1 + static_cast<long>(r.below(3));
+      if (s.api == 2) s.api = 0;
+    }
     vrt::caseBegin(idx, c12Key(s), s.json());
     vrt::watchdogArm();
     Obs o = runSpec(s);
